@@ -11,6 +11,9 @@ All theorems hold for **every** spelling function `apiPath : SourceFilePath → 
 lookup outcome and frame list of any length, and every request string.
 `FirstMatch apiPath fs requested fp` (Lemmas) says: `fp` is the first file path, in frame order, whose API
 spelling equals `requested`.
+The second half (`C09_symbol_map_choice` …) adds the library's debug id, the module offset, the debug-file
+candidates and the receiver of `location_for_source_file` (`Manager`, `sourceApiAt`), a batched `/symbolicate/v5`
+(`symbolicate`), the `moduleOffset` string, the two lookup loops of `symbol_map.rs` and wholesym's location policy.
 Only property theorems (names `C09_*`) and non-vacuity examples live in this file.
 -/
 open SourceApi
@@ -210,13 +213,13 @@ theorem C09_only_reported (apiPath : SourceFilePath → String) (fs : List Frame
     exact List.mem_cons_self
 
 /-- The model's result satisfies the judged specification (`SourceApi.specOk`, the property statement as a
-decidable predicate) for every request, when the address has at least one frame. -/
+decidable predicate, including "the response class is justified by the helper") for every request, when the
+address has at least one frame. -/
 theorem C09_model_meets_spec {Loc : Type} [DecidableEq Loc] (apiPath : SourceFilePath → String)
     (env : Env Loc) (req : Request) (fs : List Frame) (r : ReportedDebugInfo)
     (hl : env.lookup = .frames fs) (hr : reportDebugInfo apiPath fs = some r) :
-    specOk (pairsOf apiPath fs) r.files env.locationFor (req.parsed && req.debugIdOk) req.file
+    specOk (pairsOf apiPath fs) r.files env.locationFor env.fileLen (req.parsed && req.debugIdOk) req.file
       (sourceApi apiPath env req) = true := by
-  have h1 := C09_at_most_one_load apiPath env req
   unfold specOk
   rcases sourceApi_cases apiPath env req with ⟨h0, ha, hc⟩ | ⟨hp, hd, fs', fp, hl', hf, he⟩
   · -- refused: nothing loaded; a well-formed request for a reported path cannot be refused
@@ -237,30 +240,32 @@ theorem C09_model_meets_spec {Loc : Type} [DecidableEq Loc] (apiPath : SourceFil
           rw [(findPermitted_eq_some_iff _ _ _ _).2 hm] at hn
           cases hn
     rw [h0, hnot]
-    simp
+    cases ho : (sourceApi apiPath env req).outcome with
+    | ok n => rw [ho] at ha; cases ha
+    | err e =>
+      cases e <;> first | (simp [Outcome.accepted]; done) | (rw [ho] at ha; simp [Outcome.accepted] at ha)
   · rw [hl] at hl'; cases hl'
     have hm := (findPermitted_eq_some_iff _ _ _ _).1 hf
     obtain ⟨r', hr', hin⟩ := C09_only_reported apiPath fs req.file fp hm
     rw [hr] at hr'; cases hr'
     obtain ⟨hmem, hpath⟩ := firstMatch_mem hm
-    have hacc := loadSourceFile_accepted env fp
-    have hloads := loadSourceFile_loads env fp
     have hcont : r.files.contains req.file = true := by simpa using hin
     have hpair : (fp.rawPath, apiPath fp) ∈ pairsOf apiPath fs := by
       unfold pairsOf; exact List.mem_map.2 ⟨fp, hmem, rfl⟩
-    rw [he] at h1 ⊢
-    simp only [hp, hd, hcont, hacc, Bool.and_self, Bool.true_and, Bool.true_or, Bool.and_true,
-      Bool.not_true, Bool.false_or, decide_eq_true h1]
+    rw [he]
+    unfold loadSourceFile
     cases hloc : env.locationFor fp.rawPath with
     | none =>
-      have hempty : (loadSourceFile env fp).loads = [] := by rw [hloads, hloc]; rfl
-      have := (loadSourceFile_refused_iff env fp).1 hempty
-      simp [hempty, this]
-    | some loc =>
-      have hone : (loadSourceFile env fp).loads = [loc] := by rw [hloads, hloc]; rfl
-      simp only [hone, List.isEmpty_cons, Bool.false_or, List.all_cons, List.all_nil, Bool.and_true,
-        Bool.not_false, Bool.true_or, Bool.and_true, List.any_eq_true]
+      simp only [hp, hd, hcont, Outcome.accepted, List.length_nil, Nat.zero_le, decide_true,
+        List.isEmpty_nil, Bool.true_or, Bool.and_self, Bool.true_and, Bool.not_true, Bool.false_or,
+        List.any_eq_true]
       exact ⟨(fp.rawPath, apiPath fp), hpair, by simp [hpath, hloc]⟩
+    | some loc =>
+      have hany : (pairsOf apiPath fs).any (fun p => p.2 == req.file && env.locationFor p.1 == some loc) = true :=
+        List.any_eq_true.2 ⟨(fp.rawPath, apiPath fp), hpair, by simp [hpath, hloc]⟩
+      cases hlen : env.fileLen loc with
+      | none => simp [hp, hd, hin, Outcome.accepted, hany, hlen]
+      | some n => simp [hp, hd, hin, Outcome.accepted, hany, hlen]
 
 /-- With the concrete spelling `toApiFilePath`: for file paths without a mapped path (every path that does
 not come from `/rustc/…`, a cargo registry or a PDB `srcsrv` stream) the permitted request strings are
@@ -283,6 +288,294 @@ theorem C09_unmapped_exact {Loc : Type} (env : Env Loc) (fs : List Frame) (reque
     intro fp hfp heq
     apply hin
     exact List.mem_map.2 ⟨fp, hfp, by rw [← hapi fp hfp]; exact heq⟩
+
+/-! ## Several offsets, one symbol manager, the receiver of `location_for_source_file`
+
+`Manager` / `loadSymbolMap` / `sourceApiAt` / `symbolicate` (Model/SourceApi.lean) follow
+`samply-symbols/src/lib.rs:304-362`, `source/mod.rs:63-79` and `symbolicate/mod.rs:69-130`: the library's debug
+id, the module offset and the debug-file candidates are now part of the model. -/
+
+/-- **Which symbol map a request sees** (`load_symbol_map`, lib.rs:304-362): the helper-supplied one if there
+is one; otherwise the FIRST candidate, in the helper's order, that loaded and carries the requested debug id —
+every earlier candidate failed to load or has another id. -/
+theorem C09_symbol_map_choice {DL Loc : Type} (m : Manager DL Loc) (id : String) (l : Loaded DL) :
+    loadSymbolMap m id = some l ↔
+      m.direct = some l ∨
+      (m.direct = none ∧ ∃ before after, m.cands = before ++ .ok l :: after ∧ l.id = id ∧
+        ∀ c ∈ before, c = .err ∨ ∃ l', c = .ok l' ∧ l'.id ≠ id) := by
+  unfold loadSymbolMap
+  cases hd : m.direct with
+  | some d => simp
+  | none =>
+    simp only [reduceCtorEq, false_or, true_and]
+    rw [List.findSome?_eq_some_iff]
+    constructor
+    · rintro ⟨l₁, a, l₂, hl, ha, hn⟩
+      obtain ⟨rfl, hid⟩ := (candMatch_eq_some_iff id a l).1 ha
+      exact ⟨l₁, l₂, hl, hid, fun c hc => (candMatch_eq_none_iff id c).1 (hn c hc)⟩
+    · rintro ⟨l₁, l₂, hl, hid, hn⟩
+      exact ⟨l₁, .ok l, l₂, hl, (candMatch_eq_some_iff id _ l).2 ⟨rfl, hid⟩,
+        fun c hc => (candMatch_eq_none_iff id c).2 (hn c hc)⟩
+
+/-- **Confinement, with library, offset and receiver.** A source-file load happens iff the body parsed, the
+debug id is valid, `load_symbol_map` finds a symbol map `l` for it, the frames of **the requested offset in
+that symbol map** contain a file path spelled exactly `file`, and `l`'s **own** `debug_file_location` makes a
+location for the first such path's raw path; that location is what is loaded. -/
+theorem C09_confinement_offset {DL Loc : Type} (apiPath : SourceFilePath → String) (m : Manager DL Loc)
+    (rq : OffsetRequest) :
+    ((sourceApiAt apiPath m rq).loads ≠ [] ↔
+      rq.parsed = true ∧ ∃ id l fs fp, rq.debugId = some id ∧ loadSymbolMap m id = some l ∧
+        l.lookup rq.offset = .frames fs ∧ FirstMatch apiPath fs rq.file fp ∧
+        (m.locationFor l.dfl fp.rawPath).isSome = true) ∧
+    (∀ id l fs fp, rq.parsed = true → rq.debugId = some id → loadSymbolMap m id = some l →
+      l.lookup rq.offset = .frames fs → FirstMatch apiPath fs rq.file fp →
+      (sourceApiAt apiPath m rq).loads = (m.locationFor l.dfl fp.rawPath).toList) := by
+  unfold sourceApiAt
+  have hc := C09_confinement apiPath (envOf m rq.debugId rq.offset) ⟨rq.parsed, rq.debugId.isSome, rq.file⟩
+  constructor
+  · rw [hc.1]
+    constructor
+    · rintro ⟨hp, hd, fs, fp, hl, hm, hs⟩
+      cases hid : rq.debugId with
+      | none => rw [hid] at hd; cases hd
+      | some id =>
+        rw [hid] at hl hs
+        cases hsm : loadSymbolMap m id with
+        | none => rw [envOf_none m id _ hsm] at hl; cases hl
+        | some l =>
+          rw [envOf_some m id l _ hsm] at hl hs
+          exact ⟨hp, id, l, fs, fp, rfl, hsm, hl, hm, hs⟩
+    · rintro ⟨hp, id, l, fs, fp, hid, hsm, hl, hm, hs⟩
+      rw [hid, envOf_some m id l _ hsm]
+      exact ⟨hp, rfl, fs, fp, hl, hm, hs⟩
+  · intro id l fs fp hp hid hsm hl hm
+    have := hc.2 fs fp hp (by simp [hid]) (by rw [hid, envOf_some m id l _ hsm]; exact hl) hm
+    rw [this, hid, envOf_some m id l _ hsm]
+
+/-- **Accepted ⇔ reported for that same offset.** For a well-formed request, `/source/v1` accepts `file` for
+offset `a` (does not refuse it by the path check) exactly when `file` is one of the strings a `/symbolicate/v5`
+request over ANY batch of addresses containing `a`, served by the same manager, reports for `a`. In particular a
+file reported only for other offsets of the batch is refused. "Accepted" = `ok`, or the helper refusing to make
+a location for the permitted raw path, or the permitted file being unreadable. -/
+theorem C09_accepted_iff_reported_in_batch {DL Loc : Type} (apiPath : SourceFilePath → String)
+    (m : Manager DL Loc) (id : String) (addrs : List Nat) (a : Nat) (e : SymEntry) (f : String)
+    (he : (a, e) ∈ symbolicate apiPath m (some id) addrs) :
+    (sourceApiAt apiPath m ⟨true, some id, a, f⟩).outcome.accepted = true ↔ f ∈ e.files := by
+  unfold symbolicate at he
+  obtain ⟨a', _, hpair⟩ := List.mem_map.1 he
+  cases hpair
+  unfold sourceApiAt symbolicateAt envOf
+  simp only [Option.bind_some, Option.isSome_some]
+  cases hsm : loadSymbolMap m id with
+  | none => simp [sourceApi, SymEntry.files, Outcome.accepted]
+  | some l =>
+    simp only
+    cases hl : l.lookup a with
+    | noSymbols => simp [sourceApi, symEntry, SymEntry.files, Outcome.accepted]
+    | notFound => simp [sourceApi, symEntry, SymEntry.files, Outcome.accepted]
+    | noFrames => simp [sourceApi, symEntry, SymEntry.files, Outcome.accepted]
+    | frames fs =>
+      let env : Env Loc := ⟨Lookup.frames fs, m.locationFor l.dfl, m.fileLen⟩
+      constructor
+      · intro hacc
+        rcases sourceApi_cases apiPath env ⟨true, true, f⟩ with ⟨_, ha, _⟩ | ⟨_, _, fs', fp, hl', hf, _⟩
+        · rw [ha] at hacc; cases hacc
+        · cases hl'
+          obtain ⟨r, hr, hin⟩ := C09_only_reported apiPath fs f fp ((findPermitted_eq_some_iff _ _ _ _).1 hf)
+          simp [symEntry, hr, SymEntry.files, hin]
+      · intro hin
+        cases hr : reportDebugInfo apiPath fs with
+        | none => simp [symEntry, hr, SymEntry.files] at hin
+        | some r =>
+          simp only [symEntry, hr, SymEntry.files] at hin
+          exact (C09_complete apiPath env fs r rfl hr f hin).choose_spec.2.2.1
+
+/-- **A file that is not reported for the requested offset is never read**, whatever the request looks like
+(well formed or not) and whatever other offsets of the library report. -/
+theorem C09_not_reported_for_offset_refused {DL Loc : Type} (apiPath : SourceFilePath → String)
+    (m : Manager DL Loc) (id : String) (rq : OffsetRequest)
+    (hid : rq.debugId = some id ∨ rq.debugId = none)
+    (hn : rq.file ∉ (symbolicateAt apiPath m (some id) rq.offset).files) :
+    (sourceApiAt apiPath m rq).loads = [] ∧ (sourceApiAt apiPath m rq).outcome.accepted = false := by
+  have key : (sourceApiAt apiPath m rq).outcome.accepted = false := by
+    cases hacc : (sourceApiAt apiPath m rq).outcome.accepted with
+    | false => rfl
+    | true =>
+      exfalso
+      rcases hid with hid | hid
+      · -- a well-formed prefix is needed for acceptance
+        have hp : rq.parsed = true := by
+          cases hp : rq.parsed with
+          | true => rfl
+          | false => simp [sourceApiAt, sourceApi, hp, Outcome.accepted] at hacc
+        have hrq : rq = ⟨true, some id, rq.offset, rq.file⟩ := by
+          cases rq; simp_all
+        rw [hrq] at hacc
+        exact hn ((C09_accepted_iff_reported_in_batch apiPath m id [rq.offset] rq.offset _ rq.file
+          (by simp [symbolicate])).1 hacc)
+      · cases hp : rq.parsed <;> simp [sourceApiAt, sourceApi, hid, hp, Outcome.accepted] at hacc
+  exact ⟨C09_error_reads_nothing apiPath _ _ key, key⟩
+
+/-- **Requests do not influence each other**: whatever was asked before or is asked after on the same manager
+(other offsets, other files, malformed requests), a request gets the answer it would get alone. The manager
+holds no state (lib.rs:262-264) and every request loads the symbol map afresh (source/mod.rs:72). -/
+theorem C09_requests_independent {DL Loc : Type} (apiPath : SourceFilePath → String) (m : Manager DL Loc)
+    (before after : List OffsetRequest) (rq : OffsetRequest) :
+    (serve apiPath m (before ++ rq :: after)).length = before.length + 1 + after.length ∧
+    (serve apiPath m (before ++ rq :: after))[before.length]? = some (sourceApiAt apiPath m rq) := by
+  unfold serve
+  constructor
+  · simp; omega
+  · simp
+
+/-- The model meets the judged specification per offset: pairs = the frames of the requested offset in the
+symbol map `load_symbol_map` chose, reported = what the batched `/symbolicate/v5` model reports for that offset,
+location = what the chosen symbol map's `debug_file_location` gives. -/
+theorem C09_model_meets_spec_offset {DL Loc : Type} [DecidableEq Loc] (apiPath : SourceFilePath → String)
+    (m : Manager DL Loc) (id : String) (l : Loaded DL) (rq : OffsetRequest) (fs : List Frame)
+    (hid : rq.debugId = some id) (hsm : loadSymbolMap m id = some l)
+    (hl : l.lookup rq.offset = .frames fs) (hne : fs ≠ []) :
+    specOk (pairsOf apiPath fs) (symbolicateAt apiPath m (some id) rq.offset).files (m.locationFor l.dfl)
+      m.fileLen (rq.parsed && rq.debugId.isSome) rq.file (sourceApiAt apiPath m rq) = true := by
+  obtain ⟨r, hr⟩ : ∃ r, reportDebugInfo apiPath fs = some r := by
+    unfold reportDebugInfo
+    rw [List.getLast?_eq_some_getLast hne]
+    exact ⟨_, rfl⟩
+  have := C09_model_meets_spec apiPath (⟨l.lookup rq.offset, m.locationFor l.dfl, m.fileLen⟩ : Env Loc)
+    ⟨rq.parsed, rq.debugId.isSome, rq.file⟩ fs r hl hr
+  unfold sourceApiAt symbolicateAt
+  rw [hid, envOf_some m id l _ hsm]
+  simp only [Option.bind_some, hsm, hl, symEntry, hr, SymEntry.files]
+  rw [hid, hl] at this
+  exact this
+
+/-- **The `moduleOffset` string.** What `from_prefixed_hex_str` accepts is a `0x`-prefixed, non-empty string and
+denotes an offset below `2^32`; a body whose offset string it rejects is answered with a parse error and reads
+nothing, whatever file it names. -/
+theorem C09_offset_string {DL Loc : Type} (apiPath : SourceFilePath → String) (m : Manager DL Loc)
+    (r : RawRequest) :
+    (∀ n, parseModuleOffset r.offsetStr = some n →
+      n < 4294967296 ∧ (∃ rest, r.offsetStr = '0' :: 'x' :: rest ∧ rest ≠ []) ∧
+      r.toOffsetRequest = ⟨r.wellFormedJson, r.debugId, n, r.file⟩) ∧
+    (parseModuleOffset r.offsetStr = none →
+      (sourceApiAt apiPath m r.toOffsetRequest).loads = [] ∧
+      (sourceApiAt apiPath m r.toOffsetRequest).outcome = .err .parse) := by
+  constructor
+  · intro n h
+    exact ⟨(parseModuleOffset_some h).1, (parseModuleOffset_some h).2, by simp [RawRequest.toOffsetRequest, h]⟩
+  · intro h
+    simp [RawRequest.toOffsetRequest, h, sourceApiAt, sourceApi]
+
+/-! ## Both endpoints see the same frames
+
+`lookupFresh` = `SymbolMap::lookup` (`/source/v1`), `lookupBatch` = `lookup_sync` + `lookup_external`
+(`/symbolicate/v5`), Model/SourceApi.lean. -/
+
+/-- **The two lookup paths agree**, provided the external-file cache of the inner symbol map is coherent:
+`try_lookup_external(x)` either misses (hands `x` back) or answers what loading `x`'s file and asking it would
+answer. Whenever `SymbolMap::lookup` returns (after loading at most `fuel` external files),
+`lookup_sync` + `lookup_external` returns the same frames within the same bound, for every address, whatever
+the inner symbol map and the helper do; conversely with one more load. -/
+theorem C09_lookup_paths_agree {X C : Type} (im : InnerMap X C)
+    (hc : ∀ x, im.tryCached x = some (.external x) ∨ im.tryCached x = im.tryWithFile x (im.loadAux x))
+    (fuel a : Nat) (v : Option (List Frame)) :
+    (lookupFresh im fuel a = some v → lookupBatch im fuel a = some v) ∧
+    (lookupBatch im fuel a = some v → lookupFresh im (fuel + 1) a = some v) := by
+  unfold lookupFresh lookupBatch
+  cases hs : im.lookupSync a with
+  | none => simp
+  | some o =>
+    cases o with
+    | none => simp
+    | some f =>
+      cases f with
+      | available fs => simp
+      | external x =>
+        cases hw : im.withAddFile <;> cases hh : im.hasHelper <;> simp
+        rcases hc x with hx | hx
+        · rw [hx]
+          exact ⟨id, resolveExternal_mono im fuel _ v⟩
+        · rw [hx]
+          constructor
+          · intro h
+            cases fuel with
+            | zero => simp [resolveExternal] at h
+            | succ n =>
+              simp only [resolveExternal] at h
+              exact resolveExternal_mono im n _ v h
+          · intro h
+            simp only [resolveExternal]
+            exact h
+
+/-! ## wholesym's location policy (`wholesym/src/helper.rs:92-125`) as the helper -/
+
+/-- With wholesym's policy, if the symbol map that `load_symbol_map` chose does not live in a local file (it
+was downloaded from a symbol server, debuginfod, a Breakpad server, …), no source file is read for any request. -/
+theorem C09_wholesym_remote_reads_nothing (ops : PathOps) (apiPath : SourceFilePath → String)
+    (m : Manager WLoc WLoc) (hm : m.locationFor = wholesymLocationFor ops) (id : String) (l : Loaded WLoc)
+    (hsm : loadSymbolMap m id = some l) (hrem : ∀ p, l.dfl ≠ .localFile p) (rq : OffsetRequest)
+    (hid : rq.debugId = some id ∨ rq.debugId = none) :
+    (sourceApiAt apiPath m rq).loads = [] := by
+  cases hloads : (sourceApiAt apiPath m rq).loads with
+  | nil => rfl
+  | cons x xs =>
+    exfalso
+    have hne : (sourceApiAt apiPath m rq).loads ≠ [] := by rw [hloads]; simp
+    obtain ⟨_, id', l', fs, fp, hid', hsm', _, _, hs⟩ := (C09_confinement_offset apiPath m rq).1.1 hne
+    rcases hid with hid | hid
+    · rw [hid] at hid'; cases hid'
+      rw [hsm] at hsm'; cases hsm'
+      rw [hm] at hs
+      cases hd : l.dfl with
+      | localFile p => exact hrem p hd
+      | url u => rw [hd] at hs; simp [wholesymLocationFor] at hs
+      | remote => rw [hd] at hs; simp [wholesymLocationFor] at hs
+    · rw [hid] at hid'; cases hid'
+
+/-- With wholesym's policy and a local debug file `dbg`: whatever is read is the raw path `raw` of the first
+frame of the requested offset spelled like the request — as a URL if it starts with `http(s)://`, as it stands
+if absolute, otherwise joined to the directory of `dbg`. The request string itself is never turned into a location. -/
+theorem C09_wholesym_local (ops : PathOps) (apiPath : SourceFilePath → String)
+    (m : Manager WLoc WLoc) (hm : m.locationFor = wholesymLocationFor ops) (id : String) (l : Loaded WLoc)
+    (dbg : String) (hsm : loadSymbolMap m id = some l) (hloc : l.dfl = .localFile dbg)
+    (rq : OffsetRequest) (hid : rq.debugId = some id) (x : WLoc) (hx : x ∈ (sourceApiAt apiPath m rq).loads) :
+    ∃ fs fp, l.lookup rq.offset = .frames fs ∧ FirstMatch apiPath fs rq.file fp ∧
+      (((fp.rawPath.startsWith "https://" || fp.rawPath.startsWith "http://") = true ∧ x = .url fp.rawPath) ∨
+       ((fp.rawPath.startsWith "https://" || fp.rawPath.startsWith "http://") = false ∧
+          ops.isAbsolute fp.rawPath = true ∧ x = .localFile fp.rawPath) ∨
+       ((fp.rawPath.startsWith "https://" || fp.rawPath.startsWith "http://") = false ∧
+          ops.isAbsolute fp.rawPath = false ∧
+          ∃ b, ops.parent dbg = some b ∧ x = .localFile (ops.join b fp.rawPath))) := by
+  have hne : (sourceApiAt apiPath m rq).loads ≠ [] := List.ne_nil_of_mem hx
+  obtain ⟨hp, id', l', fs, fp, hid', hsm', hl, hfm, _⟩ := (C09_confinement_offset apiPath m rq).1.1 hne
+  rw [hid] at hid'; cases hid'
+  rw [hsm] at hsm'; cases hsm'
+  have hloads := (C09_confinement_offset apiPath m rq).2 id l fs fp hp hid hsm hl hfm
+  rw [hloads, hm, hloc] at hx
+  refine ⟨fs, fp, hl, hfm, ?_⟩
+  simp only [wholesymLocationFor] at hx
+  cases hu : (fp.rawPath.startsWith "https://" || fp.rawPath.startsWith "http://") with
+  | true =>
+    rw [hu] at hx
+    simp only [if_true, Option.toList_some, List.mem_singleton] at hx
+    exact Or.inl ⟨rfl, hx⟩
+  | false =>
+    rw [hu] at hx
+    simp only [Bool.false_eq_true, if_false] at hx
+    cases ha : ops.isAbsolute fp.rawPath with
+    | true =>
+      rw [ha] at hx
+      simp only [if_true, Option.toList_some, List.mem_singleton] at hx
+      exact Or.inr (Or.inl ⟨rfl, rfl, hx⟩)
+    | false =>
+      rw [ha] at hx
+      simp only [Bool.false_eq_true, if_false] at hx
+      cases hpar : ops.parent dbg with
+      | none => rw [hpar] at hx; simp at hx
+      | some b =>
+        rw [hpar] at hx
+        simp only [Option.map_some, Option.toList_some, List.mem_singleton] at hx
+        exact Or.inr (Or.inr ⟨rfl, rfl, b, rfl, hx⟩)
 
 /-! ### Non-vacuity
 
@@ -341,3 +634,68 @@ example : (sourceApi toApiFilePath (C09_exEnv C09_exFrames)
 example : ∃ r, reportDebugInfo toApiFilePath C09_exFrames = some r ∧ r.files.length = 3 := by decide
 example : FirstMatch toApiFilePath C09_exShared "/home/u/proj/src/main.rs" C09_exLocal :=
   ⟨[], [C09_exCargo, C09_exLocal], by decide, by decide, by simp⟩
+
+/-! ### Non-vacuity of the offset / candidate / receiver theorems
+
+Four candidates: one fails to load, one is another build, two carry the requested build (the first of them, a
+downloaded one, wins). Offset 16 has the frames of `C09_exFrames`, offset 32 only the local file. -/
+
+def C09_exManager : Manager (Bool × String) (String × String) :=
+  { direct := none
+    cands := [.err,
+              .ok ⟨"OTHER", (false, "/local/lib.debug"), fun _ => .frames C09_exFrames⟩,
+              .ok ⟨"ID1", (true, "/symcache/lib.debug"), fun o =>
+                if o == 16 then .frames C09_exFrames else if o == 32 then .frames [⟨some C09_exLocal⟩] else .notFound⟩,
+              .ok ⟨"ID1", (false, "/mirror/lib.debug"), fun _ => .frames C09_exFrames⟩]
+    locationFor := fun dl p => some (dl.2, p)
+    fileLen := fun l => if l.2 == C09_exLocal.rawPath then some 120 else none }
+
+-- the receiver is the location of the first candidate with the requested id, not of the first candidate
+example : (sourceApiAt toApiFilePath C09_exManager ⟨true, some "ID1", 16, "/home/u/proj/src/main.rs"⟩).loads
+    = [("/symcache/lib.debug", "/home/u/proj/src/main.rs")] := by decide
+example : (sourceApiAt toApiFilePath C09_exManager ⟨true, some "ID1", 16, "/home/u/proj/src/main.rs"⟩).outcome
+    = .ok 120 := by decide
+-- reported for offset 16, not for offset 32: refused there, nothing read
+example : (sourceApiAt toApiFilePath C09_exManager
+      ⟨true, some "ID1", 32, "cargo:github.com-1ecc6299db9ec823:nom-7.1.3:src/bytes/complete.rs"⟩).outcome
+    = .err .invalidPath := by decide
+example : (sourceApiAt toApiFilePath C09_exManager
+      ⟨true, some "ID1", 16, "cargo:github.com-1ecc6299db9ec823:nom-7.1.3:src/bytes/complete.rs"⟩).loads
+    = [("/symcache/lib.debug", C09_exCargo.rawPath)] := by decide
+-- a build nobody has
+example : (sourceApiAt toApiFilePath C09_exManager ⟨true, some "ID2", 16, "/home/u/proj/src/main.rs"⟩).outcome
+    = .err .noSymbols := by decide
+-- one batched /symbolicate/v5 over three addresses: 1, 3 and 0 files
+example : (symbolicate toApiFilePath C09_exManager (some "ID1") [32, 16, 7]).map (fun e => e.2.files.length)
+    = [1, 3, 0] := by decide
+-- requests interleaved on one manager
+example : ((serve toApiFilePath C09_exManager
+      [⟨true, some "ID1", 32, "/etc/passwd"⟩, ⟨true, some "ID1", 16, "/home/u/proj/src/main.rs"⟩,
+       ⟨true, none, 16, "/home/u/proj/src/main.rs"⟩]).map (·.loads.length)) = [0, 1, 0] := by decide
+-- hypotheses of the wholesym theorems: a downloaded debug file wins
+example : ∃ (m : Manager WLoc WLoc) (l : Loaded WLoc), loadSymbolMap m "ID1" = some l ∧ ∀ p, l.dfl ≠ .localFile p :=
+  ⟨⟨none, [.err, .ok ⟨"ID1", .remote, fun _ => .frames C09_exFrames⟩], wholesymLocationFor ⟨fun _ => true, fun _ => none, fun a _ => a⟩,
+     fun _ => none⟩, ⟨"ID1", .remote, fun _ => .frames C09_exFrames⟩, by simp [loadSymbolMap, List.findSome?, candMatch], by intro p h; cases h⟩
+
+/-- external references chained through two files (dwo → …): `x` resolves after `x + 1` loads; the cache never hits -/
+def C09_exInner : InnerMap Nat Unit :=
+  { lookupSync := fun a => if a == 0 then none else some (some (.external (a - 1)))
+    withAddFile := true
+    hasHelper := true
+    loadAux := fun _ => some ()
+    tryWithFile := fun x _ => if x == 0 then some (.available [⟨some C09_exLocal⟩]) else some (.external (x - 1))
+    tryCached := fun x => some (.external x) }
+
+example : ∀ x, C09_exInner.tryCached x = some (.external x) ∨
+    C09_exInner.tryCached x = C09_exInner.tryWithFile x (C09_exInner.loadAux x) := fun _ => Or.inl rfl
+example : lookupFresh C09_exInner 2 2 = some (some [⟨some C09_exLocal⟩]) := by decide
+example : lookupBatch C09_exInner 2 2 = some (some [⟨some C09_exLocal⟩]) := by decide
+example : lookupFresh C09_exInner 1 2 = none := by decide
+
+-- the offset string: prefix, sign, case, leading zeros, overflow
+example : parseModuleOffset "0x1d04742".toList = some 30426946 := by decide
+example : parseModuleOffset "0x+1F".toList = some 31 := by decide
+example : parseModuleOffset "0x0000000000ff".toList = some 255 := by decide
+example : parseModuleOffset "0xffffffff".toList = some 4294967295 := by decide
+example : ∀ s ∈ ["0x100000000", "1f", "0X1f", "0x", "0x+", "0x-1", "0x1g", "0x 1", "", "x1", "0x1_0"],
+    parseModuleOffset s.toList = none := by decide
